@@ -15,8 +15,8 @@ namespace Kvass.Driver.Loop
 open Kvass Kvass.Coord Kvass.Loop Kvass.Spec Kvass.Driver
 
 def pFault : P Fault := do
-  let a ← tokBool; let b ← tokBool; let c ← tokBool; let d ← tokBool; let e ← tokBool
-  pure ⟨a, b, c, d, e⟩
+  let a ← tokBool; let b ← tokBool; let c ← tokBool; let d ← tokBool; let e ← tokBool; let g ← tokBool
+  pure ⟨a, b, c, d, e, g⟩
 
 def pWorldObs : P (Nat × List SC.Obs) := do
   let n ← tokNat
@@ -62,8 +62,8 @@ def probeOfObs (o : SC.Obs) (f : Fault) : Probe :=
   { ready := !f.notReady
     status := if f.statusFail then none else some (reportOfObs o)
     rt1 := if f.rtFail then none else some (⟨o.head, o.proc, .none⟩, !f.outOfSync)
-    pushOk := false
-    rt2 := none
+    pushOk := f.pushOk
+    rt2 := if f.pushOk && !f.rtFail then some (⟨o.head, o.proc, .none⟩, true) else none
     postOk := !f.postLost }
 
 /-- search pruning: within a cycle (after GC) no stage removes a key from a shard's plan, so a
